@@ -15,6 +15,9 @@ import (
 
 // encodeFunc runs the three encoding passes (array discovery, write sets, final).
 func encodeFunc(w *World, f *ssa.Function, opts *EncOpts) *enc {
+	if dbgOn {
+		f.WriteTo(os.Stdout)
+	}
 	e0 := newEnc(w, f, nil, opts)
 	e0.run()
 	e1 := newEnc(w, f, &passInfo{arrays: e0.rec.arrays}, opts)
@@ -233,3 +236,5 @@ func truncate(s string, n int) string {
 	}
 	return s
 }
+
+var dbgEnv = os.Getenv("GVC_DBG")
